@@ -363,3 +363,5 @@ PROPS["C07"] = {
 
 PROPS["C08"]["harness"].append({"bin": "h_codec", "args": ["limits"]})
 PROPS["C03"]["harness"].append({"bin": "h_codec", "args": ["hostile"]})
+
+PROPS["C09"]["needs_gen"] = ["Funcs"]
